@@ -1,4 +1,5 @@
 import Nstd.Path.FsLib
+import Nstd.Path.Spec
 /-
   Specification side of property C19, file-system part.
   * a File object is a byte array with a position (`FSpec`), `specStep` is what each operation must do;
@@ -41,5 +42,31 @@ def NoNew (fs fs' : Fs) : Prop := ∀ q, fs.get q = none → fs'.get q = none
 
 /-- `q` lies in the tree rooted at `d` -/
 def Under (d q : CPath) : Prop := d <+: q
+
+/-! well-formed worlds (what the kernel maintains): names are names, no path twice, parents are directories -/
+
+/-- every component of every stored path is a proper name -/
+def NamesOk (fs : Fs) : Prop := ∀ x ∈ fs.ents, ∀ c ∈ x.1, IsName c
+
+/-- no canonical path is stored twice -/
+def NoDupKeys (fs : Fs) : Prop := (fs.ents.map (·.1)).Nodup
+
+/-- every proper, non-empty prefix of a stored path is stored as a directory -/
+def ParentsOk (fs : Fs) : Prop :=
+  ∀ x ∈ fs.ents, ∀ k, k < x.1.length → 0 < k → ∃ y ∈ fs.ents, y.1 = x.1.take k ∧ y.2 = .dir
+
+structure WF (fs : Fs) : Prop where
+  names : NamesOk fs
+  nodup : NoDupKeys fs
+  parents : ParentsOk fs
+
+instance (c : Bytes) : Decidable (IsName c) := by unfold IsName; exact inferInstance
+instance (fs : Fs) : Decidable (NamesOk fs) := by unfold NamesOk; exact inferInstance
+instance (fs : Fs) : Decidable (NoDupKeys fs) := by unfold NoDupKeys; exact inferInstance
+instance (fs : Fs) : Decidable (ParentsOk fs) := by unfold ParentsOk; exact inferInstance
+instance (fs : Fs) : Decidable (WF fs) :=
+  decidable_of_iff (NamesOk fs ∧ NoDupKeys fs ∧ ParentsOk fs)
+    ⟨fun h => ⟨h.1, h.2.1, h.2.2⟩, fun h => ⟨h.names, h.nodup, h.parents⟩⟩
+
 
 end Nstd.Path
